@@ -167,7 +167,7 @@ def _child(fn, task, wfd, timeout):
         os._exit(code)
 
 
-def run_many(fn, tasks, jobs=16, timeout=60, on_result=None, wall_cap=None):
+def run_many(fn, tasks, jobs=16, timeout=60, on_result=None, wall_cap=None, keep=True):
     """Run fn(task) in a forked child for every task; returns results in task
     order.  Result: {"ok": True, "res": ...} | {"ok": False, "err": ...}."""
     tasks = list(tasks)
@@ -222,6 +222,8 @@ def run_many(fn, tasks, jobs=16, timeout=60, on_result=None, wall_cap=None):
             if on_result is not None:
                 if on_result(idx, results[idx]) == "stop":
                     stopped = True
+            if not keep:
+                results[idx] = None
         for rfd, (idx, pid, t0, chunks) in list(live.items()):
             if now - t0 > timeout + 5:
                 try:
